@@ -75,7 +75,7 @@ class DBSchema(object):
                       ]
             sql, adapter = provider.ast2sql(sql_ast)
             if core.local.debug: log_sql(sql)
-            provider.execute(cursor, sql)
+            provider.execute(cursor, sql, adapter(()))  # with arguments, so that format-style drivers un-double %%
 
 class DBObject(object):
     def create(table, provider, connection):
